@@ -8,6 +8,9 @@ Open Scope N_scope.
 Definition f64_image (b : N) : N :=
   if f_sign b then 18446744073709551615 - b else b + 9223372036854775808.
 
+(* after the fix both zeros share the image of 0.0 (compare treats them as equal) *)
+Definition f64_key (b : N) : N := f64_image (if b =? 9223372036854775808 then 0 else b).
+
 (* depth is a u8 in the code; after the fix depth + 1 saturates at 255 (it overflowed: a panic in debug builds) *)
 Definition sat1 (d : N) : N := if 255 <=? d then 255 else d + 1.
 Fixpoint key_entry (depth : N) (v : value) : res (list N) :=
@@ -29,7 +32,7 @@ Fixpoint key_entry (depth : N) (v : value) : res (list N) :=
                     end) o;
       Ok (depth :: OBJECT_LEVEL :: body)
   | VStr s => Ok (depth :: level_of_tag STRING_TAG :: s)
-  | VNum n => Ok (depth :: level_of_tag NUMBER_TAG :: be_bytes 8 (f64_image (as_f64 n)))
+  | VNum n => Ok (depth :: level_of_tag NUMBER_TAG :: be_bytes 8 (f64_key (as_f64 n)))
   | other => Ok [depth; level_of_tag (tag_of other)]
   end.
 Definition comparable_key (v : value) : res (list N) := key_entry 0 v.
